@@ -3,7 +3,7 @@
 From Coq Require Import ExtrOcamlBasic.
 From Coq Require Extraction.
 From Coq Require Import NArith List Strings.Byte.
-From Muscle Require Import Gen.Consts Msg.MsgDefs Msg.MsgModel Msg.MsgApi Msg.MsgSpec.
+From Muscle Require Import Gen.Consts Msg.MsgDefs Msg.MsgModel Msg.MsgApi Msg.MsgSpec Msg.TmplModel.
 Definition tc_bool := c_B_BOOL_TYPE.     Definition tc_double := c_B_DOUBLE_TYPE.  Definition tc_float := c_B_FLOAT_TYPE.
 Definition tc_int64 := c_B_INT64_TYPE.   Definition tc_int32 := c_B_INT32_TYPE.    Definition tc_int16 := c_B_INT16_TYPE.
 Definition tc_int8 := c_B_INT8_TYPE.     Definition tc_message := c_B_MESSAGE_TYPE. Definition tc_pointer := c_B_POINTER_TYPE.
@@ -14,4 +14,5 @@ Extraction "msg_model.ml"
   byte_of_N N_of_byte len flatten flattened_size unflatten rt strip_msg norm_msg chk_msg msg_eq ieq_cpp
   step run empty_msg spec_msg content_msg frame ftype_of_tc flattenable elem_size wire_size cpp_size depth_msg fields_len repr_count
   tc_bool tc_double tc_float tc_int64 tc_int32 tc_int16 tc_int8 tc_message tc_pointer tc_point tc_rect
-  tc_string tc_raw tc_tag tc_any enc_default takeN.
+  tc_string tc_raw tc_tag tc_any enc_default takeN
+  tmpl_flatten tmpl_flattened_size tmpl_unflatten tmpl_of_msg same_shape.
